@@ -127,6 +127,12 @@ def run_case(case):
         return dict(viol=viol, key=repr(sorted(case.items())), nontrivial=True, stats=stats)
     if any((a != b).any() for a, b in zip(snap, (x, P, z, H, R))):
         v('c07-arg-mutated', 'kalman.correct modified one of its inputs')
+    # argument form: integer-typed arrays (where the values are integers) must give the same result
+    if case['xz'] == 'unit' and case['P'] in ('identity', 'rank1', 'zero') and case['H'] == 'selector' and \
+            case['rs'] == 1.0 and case['R'] == 'dense' and float(np.abs(R * 4 - np.round(R * 4)).max()) == 0.0:
+        xi, Pi_, inni = kalman.correct(x.astype(int), P.astype(int), z.astype(int), H.astype(int), R)
+        if np.abs(xi - xp).max() > 0 or np.abs(Pi_ - Pp).max() > 0 or np.abs(inni - inn).max() > 0:
+            v('c07-int-dtype-form', 'integer-typed x, P, z, H give a different result than the same values as floats')
     xe, Pe, K, S, e, chi2 = lin.exact_posterior(x, P, z, H, R)
     condS = np.linalg.cond(S)
     U = np.eye(n) - K @ H
